@@ -8,6 +8,7 @@ ZeroDivisionError in `inverse` / `lu_solve`.
 import json
 from common import *  # noqa
 import linalg_ops as LA
+import linalg_families as LF
 from linalg_ops import MGen, Engine, tok, toks_of, flat, has_nonfinite, S
 
 LEVEL = "translation_validation"
@@ -31,10 +32,24 @@ SQUARE_CLASSES = ["general", "general", "general", "symmetric", "hermitian", "up
                   "defective", "repeated", "identity", "spd"]
 
 
-def _mk_square(g, forced_cls=None):
+# structured square inputs (linalg_families): shape-selected branches of the factorizations.  For the solvers only families
+# that stay (mostly) nonsingular are used; rank-deficient ones are left to the factorization identities (lu, qr).
+SOLVE_FAMILIES = ["graded_rows", "graded_cols", "graded_both", "diagdom", "diagdom", "near_upper", "near_lower", "block_tri",
+                  "block_diag", "sparse", "zero_diag"]
+P_STRUCTURED = 0.3
+
+
+def _mk_square(g, forced_cls=None, families=None):
     r = g.r
     p = g.prec()
     n = g.size()
+    if forced_cls is None and r.random() < P_STRUCTURED:
+        fam = r.choice(families or SOLVE_FAMILIES)
+        cplx = r.random() < 0.35
+        A = LF.rect_family(g, fam, n, n, p, cplx)
+        g.note("class", "fam:" + fam)
+        g.note("field", "complex" if cplx else "real")
+        return p, n, "fam:" + fam, cplx, A
     cls = forced_cls or r.choice(SQUARE_CLASSES)
     if cls == "hilbert":
         n = min(n, 6)
@@ -67,6 +82,9 @@ def _det_is_zero(ans):
 def case_solve(g, op, singular=False):
     if op == "cholesky_solve":
         p, n, cls, cplx, A = _mk_square(g, "spd")
+        if g.r.random() < P_STRUCTURED:
+            cls, A = LF.spd_family(g, n, p, cplx)
+            g.note("class", cls)
     elif singular:
         p, n, cls, cplx, A = _mk_square(g, "singular")
     else:
@@ -185,9 +203,15 @@ def case_over(g, op):
         n = min(n, 7)
     cplx = r.random() < 0.3
     kind = g.kind()
-    A = g.rect(m, n, kind, p, cplx)
+    cls = "overdetermined"
+    if r.random() < P_STRUCTURED:
+        fam = r.choice(["graded_rows", "graded_cols", "graded_both", "diagdom", "near_upper", "block_tri", "sparse", "zero_diag"])
+        A = LF.rect_family(g, fam, m, n, p, cplx, kind)
+        cls = "overdetermined/fam:" + fam
+    else:
+        A = g.rect(m, n, kind, p, cplx)
     b = g.rect(m, 1, r.choice(["int", "dyadic", "decimal"]), p, cplx)
-    g.note("class", "overdetermined")
+    g.note("class", cls)
     g.note("field", "complex" if cplx else "real")
     task = {"op": op, "prec": p, "cplx": cplx, "A": toks_of(A), "b": toks_of(b)}
     At, bt = flat(task["A"]), flat(task["b"])
@@ -211,11 +235,11 @@ def case_over(g, op):
         if z:
             return "na", "rank-deficient overdetermined system"
         return _judge_solve(op + "/over", res, ans)
-    return {"task": task, "site": "linalg." + op, "cls": "overdetermined", "lines": lines, "judge": judge}
+    return {"task": task, "site": "linalg." + op, "cls": cls, "lines": lines, "judge": judge}
 
 
 def case_lu(g, cache=False):
-    p, n, cls, cplx, A = _mk_square(g)
+    p, n, cls, cplx, A = _mk_square(g, families=LF.RECT_FAMILIES)
     task = {"op": "lu", "prec": p, "cplx": cplx, "A": toks_of(A)}
     if cache:
         task["op"] = "lu_cache"
@@ -359,15 +383,26 @@ def case_lu_history(g):
             "judge": judge, "nontrivial": n >= 2}
 
 
-def case_qr(g):
+QR_FAMILIES = ["graded_rows", "graded_rows", "graded_both", "graded_cols", "diagdom", "diagdom", "near_upper", "near_upper",
+               "near_lower", "zero_cols", "zero_rows", "dup", "lowrank", "bidiag", "block_tri", "block_diag", "sparse", "zero_diag"]
+
+
+def case_qr(g, structured=False):
     r = g.r
     p = g.prec()
     n = max(2, min(g.size(2), 8))
     m = min(8, n + r.choice([0, 0, 1, 2, 3]))
-    cplx = r.random() < 0.35
+    cplx = r.random() < (0.5 if structured else 0.35)
     kind = g.kind()
-    cls = r.choice(["general", "general", "upper", "zero_col", "rankdef"])
-    A = g.rect(m, n, kind, p, cplx)
+    cls = "fam" if structured else r.choice(["general", "general", "upper", "zero_col", "rankdef", "fam", "fam", "fam"])
+    if cls == "fam":
+        # shape-selected branches of the Householder step: the sign of beta (cancellation in beta - alpha when the diagonal entry
+        # dominates its sub-column: graded rows, dominant diagonal, nearly triangular), xnorm == 0, zero diagonal entry, rank
+        # deficiency in every position
+        cls = "fam:" + r.choice(QR_FAMILIES)
+        A = LF.rect_family(g, cls[4:], m, n, p, cplx, kind)
+    else:
+        A = g.rect(m, n, kind, p, cplx)
     if cls == "upper":
         for i in range(m):
             for j in range(n):
@@ -410,6 +445,9 @@ def case_qr(g):
 
 def case_chol(g):
     p, n, cls, cplx, A = _mk_square(g, "spd")
+    if g.r.random() < P_STRUCTURED:
+        cls, A = LF.spd_family(g, n, p, cplx)
+        g.note("class", cls)
     task = {"op": "cholesky", "prec": p, "cplx": cplx, "A": toks_of(A)}
     At = flat(task["A"])
 
@@ -428,7 +466,7 @@ def case_chol(g):
         if v == "V:ok":
             return "ok", None
         return "violates", "cholesky identity/structure fails: " + v
-    return {"task": task, "site": "linalg.cholesky", "cls": "spd", "lines": lines, "judge": judge, "nontrivial": n >= 2}
+    return {"task": task, "site": "linalg.cholesky", "cls": cls, "lines": lines, "judge": judge, "nontrivial": n >= 2}
 
 
 def case_arith(g):
@@ -604,9 +642,16 @@ def run(ctx):
     n_hist = 80 if ctx.quick else 1500
     for _ in range(n_hist):
         eng.add(case_lu_history(gh))
+    # qr on structured families only (separate PRNG stream; these cases are cheap): the sign choice / cancellation of the real and
+    # the complex Householder step only shows on graded, diagonally dominant or nearly triangular input
+    gq = MGen(ctx.seed * 1000003 + 3031, max_n=8)
+    for _ in range(400 if ctx.quick else 6000):
+        eng.add(case_qr(gq, structured=True))
     out = eng.run()
     for k, v in gh.hist.items():
         g.hist["history:" + k] = v
+    for k, v in gq.hist.items():
+        g.hist["qr-structured:" + k] = v
     shim_stats, shim_fail = run_exact_shim(g, 400 if ctx.quick else 20000)
     out["failing"] += shim_fail
     cov = LA.coverage_of(out, g,
@@ -617,7 +662,13 @@ def run(ctx):
         "real routine, the output is read exactly and the property instance is decided by the Lean checker in exact arithmetic; a "
         "case is non-trivial when n>=2 and it is counted when the verdict is decided (ok/violates); plus histories on ONE matrix "
         "object at one precision: lu(A) or LU_decomp(A), then 1-2 assignments (single element, row, column, block or strided slice, "
-        "with a matrix or a scalar value), optionally a second round, then lu(A), decided against the exact CURRENT contents",
+        "with a matrix or a scalar value), optionally a second round, then lu(A), decided against the exact CURRENT contents; "
+        "structured families (harness/linalg_families.py) in a share of the solve/inverse/det/lu/cholesky/qr cases and in a qr batch of "
+        "their own: rows/columns graded by 2^k or 10^k (gaps from 3 bits to beyond 2*prec; geometric, one outlier, two-level, "
+        "shuffled, uniformly small/big), dominant diagonal of either sign (complex: dominant real part, imaginary part or both), "
+        "nearly triangular (other triangle * 2^-gap), zero columns/rows, repeated rows/columns, low rank, bidiagonal with zero/tiny "
+        "entries, block triangular/diagonal, sparse, zero diagonal; graded / dominant-diagonal / block-diagonal SPD; complex "
+        "variants with all-zero, tiny or single non-zero imaginary parts (real data on the complex code path)",
         len(PROGRAMS))
     cov["checker_requests"] = eng.nlines
     cov["exact_shim_LU_decomp"] = {"cases": sum(shim_stats.values()), "verdicts": shim_stats,
